@@ -121,7 +121,8 @@ Definition mem (n : string) (l : list string) : bool := existsb (String.eqb n) l
    the changed ingresses that were converted before) minus IngressesDel plus
    IngressesAdd. A dirty ingress is re-read through GetIngress; an added one is taken
    from the event unless the same batch also removes or updates it, in which case it is
-   re-read too (the lists do not tell the order of the events).
+   re-read too (the lists do not tell the order of the events); an updated one is always
+   re-read, tracked or not, removed in the same batch or not.
    [view] is the list of names whose conversion is in the model. *)
 Definition converted_after (c : cfg) (cls : classes) (objs : list ingress) (b : batch)
     (view : list string) (n : string) : bool :=
@@ -129,6 +130,7 @@ Definition converted_after (c : cfg) (cls : classes) (objs : list ingress) (b : 
     if mem n (names (b_del b)) || mem n (names (b_upd b))
     then is_some (get_ingress c cls objs n)
     else true
+  else if mem n (names (b_upd b)) then is_some (get_ingress c cls objs n)
   else if mem n (names (b_del b)) then false
   else if mem n (b_links b) && mem n view then is_some (get_ingress c cls objs n)
   else mem n view.
